@@ -193,10 +193,15 @@ class ExprGen:
 # pipelines
 # ---------------------------------------------------------------------------------------
 
+class NotApplicable(Exception):
+    pass
+
+
 class Gen:
     def __init__(self, rng, ntables=3, max_tr=6, nlets=None, kinds=None, declared=True, shared_k=True,
-                 append_inline=False, open_take=True, dup_names=True):
+                 append_inline=False, open_take=True, dup_names=True, forced=None):
         self.rng = rng
+        self.forced = forced
         self.shared_k, self.append_inline, self.open_take, self.dup_names = shared_k, append_inline, open_take, dup_names
         self.schema = Schema(rng, ntables, shared_k)
         self.max_tr = max_tr
@@ -221,17 +226,23 @@ class Gen:
               for i, (name, frame, _, _) in enumerate(self.lets)]
         return s
 
-    def pipeline(self, first_choice=None):
+    def pipeline(self, first_choice=None, forced=None):
         rng = self.rng
         kind, idx, sname, frame = first_choice or rng.choice(self.sources())
         text = [f"from {sname}"]
         sx = []
         frames = [frame]
-        n = rng.randint(1, self.max_tr)
-        for _ in range(n):
-            k = rng.choice(self.kinds)
-            res = getattr(self, "tr_" + k)(frame, sname)
+        n = len(forced) if forced else rng.randint(1, self.max_tr)
+        for j in range(n):
+            k = forced[j] if forced else rng.choice(self.kinds)
+            res = None
+            for _attempt in range(6 if forced else 1):
+                res = getattr(self, "tr_" + k)(frame, sname)
+                if res is not None:
+                    break
             if res is None:
+                if forced:
+                    raise NotApplicable(k)
                 continue
             t, s, frame = res
             text.append(t)
@@ -600,7 +611,7 @@ class Gen:
                 frame = [c.copy(ref=c.name) for c in frame]
             name = f"l{i}"
             self.lets.append((name, frame, " | ".join(text), f"( ( {kind} {idx} ) ( " + " ".join(sx) + " ) )"))
-        (kind, idx), frame, text, sx, frames = self.pipeline()
+        (kind, idx), frame, text, sx, frames = self.pipeline(forced=self.forced)
         return Case(self.schema, self.declared, [(n, t, s) for n, _, t, s in self.lets], (kind, idx), text, sx, frames, self.trace)
 
 
@@ -661,6 +672,34 @@ class Case:
     def to_json(self):
         return {"prql": self.prql, "sexp": self.sexp, "db": self.db, "db_sexp": self.db_sexp, "schema": self.schema_list,
                 "columns": self.columns}
+
+
+ALL_KINDS = ["select", "derive", "filter", "sort", "take", "aggregate", "group_agg", "group_take", "join", "append", "window"]
+
+
+def systematic_cases(maxlen, profile, seed=7, sample=None, kinds=ALL_KINDS):
+    """one program per sequence of transform kinds of length <= maxlen (seed-independent enumeration); `sample`: (rng, n) to
+    subsample the longest length"""
+    import itertools
+    out = []
+    for n in range(1, maxlen + 1):
+        seqs = list(itertools.product(kinds, repeat=n))
+        if sample and n == maxlen and len(seqs) > sample[1]:
+            seqs = sample[0].sample(seqs, sample[1])
+        for seq in seqs:
+            import zlib
+            rng = random.Random(zlib.crc32(repr((seed,) + seq).encode()))
+            for attempt in range(3):
+                try:
+                    g = Gen(rng, forced=list(seq), nlets=0, **profile)
+                    c = g.program()
+                    c.db = gen_db(rng, g.schema)
+                    c.seq = seq
+                    out.append(c)
+                    break
+                except NotApplicable:
+                    continue
+    return out
 
 
 def make_case(rng, **kw):
